@@ -198,8 +198,8 @@ def _scale(ctx, name='scale', octave=False):
     return S.LogNum(c), S.SymNum(c)
 
 
-def _in_range(ctx, arrs):
-    lo = z3.RealVal(S.fractions.Fraction(np.log2(20.0)))
+def _in_range(ctx, arrs, lo_hz=20.0):
+    lo = z3.RealVal(S.fractions.Fraction(np.log2(lo_hz)))
     hi = z3.RealVal(S.fractions.Fraction(np.log2(5000.0)))
     for a in arrs:
         for v in np.asarray(a, dtype=object).reshape(-1):
@@ -211,12 +211,19 @@ def _mul(arr, F):
     return S.array([v * F for v in arr]) if len(arr) else arr
 
 
-def job_melody_scale(n):
+def job_melody_scale(n, lo_hz=20.0):
+    """lo_hz: lower end of the frequency range before and after scaling (melody has no documented minimum frequency; values
+    below the 10 Hz base of the cent scale have negative cent values)"""
     def build(ctx):
-        d = E._b_melody(ctx, (n, 0))
+        old = E.MEL_LO
+        E.MEL_LO = lo_hz
+        try:
+            d = E._b_melody(ctx, (n, 0))
+        finally:
+            E.MEL_LO = old
         F, c = _scale(ctx)
         rt, rf, et, ef = d['args']
-        _in_range(ctx, [_mul(rf, F), _mul(ef, F)])
+        _in_range(ctx, [_mul(rf, F), _mul(ef, F)], lo_hz)
         return dict(rt=rt, rf=rf, et=et, ef=ef, F=F)
 
     def body(A, inp):
@@ -226,7 +233,7 @@ def job_melody_scale(n):
         for key in s1:
             A.observe(key, s1[key])
             A.require(A.eq(s1[key], s2[key]), 'melody.evaluate[%s]:unchanged-by-joint-frequency-scaling' % key)
-    return Job('C09', 'melody.evaluate[scale,%d frames]' % n, build, body, exact_floats=False,
+    return Job('C09', 'melody.evaluate[scale,%d frames%s]' % (n, '' if lo_hz == 20.0 else ',frequencies down to %s Hz' % lo_hz), build, body, exact_floats=False,
                funcs=['melody.evaluate', 'melody.hz2cents', 'melody.raw_pitch_accuracy', 'melody.raw_chroma_accuracy', 'melody.overall_accuracy'],
                bounds=dict(frames=n), timeout_s=1500)
 
@@ -296,7 +303,7 @@ def job_multipitch_scale(size, octave, est_only=False):
         et, ef = inp['est']
         sc = (lambda fs: [_mul(f, F) for f in fs]) if A.sym else (lambda fs: [f * F for f in fs])
         r1 = spec.call(dict(ref=(rt, rf), est=(et, ef), kw=inp['kw']))
-        r2 = spec.call(dict(ref=(rt, rf if est_only else sc(rf)), est=(et, sc(ef)), kw=inp['kw']))
+        r2 = A.second(lambda: spec.call(dict(ref=(rt, rf if est_only else sc(rf)), est=(et, sc(ef)), kw=inp['kw'])))
         idx = range(7, 14) if est_only else (range(14) if octave else range(7))
         for i in idx:
             A.observe(spec.outs[i][0], r1[i])
@@ -321,7 +328,7 @@ def job_transcription_scale(size):
         ri, rp = inp['ref']
         ei, ep = inp['est']
         r1 = spec.call(dict(ref=(ri, rp), est=(ei, ep), kw=inp['kw']))
-        r2 = spec.call(dict(ref=(ri, _mul(rp, F) if A.sym else rp * F), est=(ei, _mul(ep, F) if A.sym else ep * F), kw=inp['kw']))
+        r2 = A.second(lambda: spec.call(dict(ref=(ri, _mul(rp, F) if A.sym else rp * F), est=(ei, _mul(ep, F) if A.sym else ep * F), kw=inp['kw'])))
         for i in range(4):
             A.observe(spec.outs[i][0], r1[i])
             A.require(A.eq(r1[i], r2[i]), 'transcription.%s:unchanged-by-joint-frequency-scaling' % spec.outs[i][0])
@@ -350,6 +357,9 @@ def jobs(tier):
     for n in ((1, 2) if q else (1, 2, 3)):
         js.append(job_melody_scale(n))
         js.append(job_melody_est_octave_and_sign(n))
+    js.append(job_melody_scale(1, lo_hz=1.0))
+    if not q:
+        js.append(job_melody_scale(2, lo_hz=1.0))
     js.append(job_melody_sign_resampled(2, 3))
     if not q:
         js.append(job_melody_sign_resampled(3, 4))
